@@ -142,7 +142,12 @@ func takeSnap(mv *data_model.MultiValue) snap {
 // ---------------------------------------------------------------- generators (exact domain: small dyadic rationals)
 
 var hostPool = []tag{{}, {}, {I: 7}, {I: 9}, {S: "hosta"}, {S: "hostb"}}
-var topPool = []tag{{I: 1}, {I: 2}, {S: "x"}, {S: "yy"}, {I: 3, S: "z"}, {I: 5}, {S: "w"}, {S: "v"}}
+
+// string-top keys: positive ints (mapped ids), raw int32 values incl. negative ones (the string-top tag may be a raw
+// int32 tag: -1, MinInt32, MaxInt32, the negation of a mapped id), strings (one of them mapped by the aggregator) and a
+// non-normalized key (I has priority)
+var topPool = []tag{{I: 1}, {I: 2}, {S: "x"}, {S: "yy"}, {I: 3, S: "z"}, {I: 5}, {S: "w"}, {S: "v"},
+	{I: -1}, {I: math.MinInt32}, {I: -77}, {I: math.MaxInt32}, {I: 41}}
 var sfPool = []float64{1, 1, 2, 3, 10, 1.5, 2.25, 4, 7.5}
 
 func genValue(r *verifx.Rng, base float64) float64 {
@@ -289,6 +294,16 @@ func (c *caseCtx) applyEvent(e evSpec) {
 	h := c.h
 	c.keysBefore = topKeySet(c.item)
 	c.sfBefore = data_model.VerifC02SampleFactorLog2(c.item)
+	switch {
+	case e.top.Empty():
+		h.Stat("top.key.tail", 1)
+	case e.top.I < 0:
+		h.Stat("top.key.negative-int", 1)
+	case e.top.I > 0:
+		h.Stat("top.key.positive-int", 1)
+	default:
+		h.Stat("top.key.string", 1)
+	}
 	top, host := e.top, e.host
 	key := top
 	key.Normalize()
@@ -557,6 +572,8 @@ func corpus() [][]caseSpec {
 			{key: k(303), sf: 1, aggHost: tag{I: 1000}, events: []evSpec{val(tag{}, 5)}}},
 		// string-top capacity 3, four distinct keys: MapStringTop resamples and folds evicted entries into Tail
 		{{key: k(401), noSample: true, sf: 2, cap: 3, aggHost: tag{I: 1000}, events: []evSpec{val(tag{S: "a"}, 1), val(tag{S: "b"}, 2), val(tag{S: "c"}, 3), val(tag{S: "d"}, 4), val(tag{S: "e"}, 5)}}},
+		// raw int32 string-top keys incl. negative ones next to a string key: every key must arrive as itself (seeded C02-r4-2 shape)
+		{{key: k(403), noSample: true, sf: 2, aggHost: tag{I: 1000}, events: []evSpec{val(tag{I: -1}, 1), val(tag{I: math.MinInt32}, 2), val(tag{S: "a"}, 3), val(tag{}, 4)}}},
 		// sampler path, five string tops, StringTopCountSend = 3: FinishStringTop folds the two smallest into Tail
 		{{key: k(402), sf: 1, aggHost: tag{I: 1000}, events: []evSpec{val(tag{S: "a"}, 1), {kind: 'v', top: tag{S: "b"}, vals: []float64{2, 2}}, {kind: 'v', top: tag{S: "c"}, vals: []float64{3, 3, 3}},
 			{kind: 'v', top: tag{S: "d"}, vals: []float64{4, 4, 4, 4}}, {kind: 'v', top: tag{S: "e"}, vals: []float64{5, 5, 5, 5, 5}}}}},
